@@ -13,6 +13,8 @@ say() { echo "$@" | tee -a "$log"; }
 git stash list >> "$log"
 git diff > /tmp/verify_$id.diff
 git checkout -- . 2>>"$log"
+# rebase the scratch worktree onto /repo's current HEAD (fix commits made since the agent started)
+git checkout -q --detach "$(git -C /repo rev-parse HEAD)" 2>>"$log"
 if ! git apply --check SEEDED/patch.diff 2>>"$log"; then say "$id: patch does not apply to HEAD"; exit 1; fi
 rm -rf demo_v; mkdir demo_v; cp SEEDED/demo_test.go demo_v/demo_test.go
 # (4b) demo passes without the change
